@@ -41,7 +41,7 @@ var stNames = []stName{
 
 type stVal struct{ text, canon string }
 
-var stVals = []stVal{{"5", "5"}, {"60", "60"}, {"1.5", "f1.5"}, {"(1+2)", "3"}, {"2d1", "2"}, {"(1+2)*3", "9"}, {"(2)d1", "2"}}
+var stVals = []stVal{{"5", "5"}, {"60", "60"}, {"1.5", "f1.5"}, {"(1+2)", "3"}, {"2d1", "2"}, {"0", "0"}, {"(1+2)*3", "9"}, {"(2)d1", "2"}, {"0.0", "f0"}, {"(1-1)", "0"}}
 var stValsSigned = []stVal{{"-3", "-3"}}
 
 func stAssignSpellings(full bool) []stEdit {
@@ -50,7 +50,9 @@ func stAssignSpellings(full bool) []stEdit {
 		vals := stVals
 		if !full && ni >= 8 {
 			vals = stVals[:1] // quick: the names with blanks at their edges with one value (all spellings in k=1)
-		} else if !full && ni != 0 && ni != 5 {
+		} else if !full && (ni == 0 || ni == 5) {
+			vals = stVals[:7] // quick: a zero value and one that continues after a parenthesised group, with one plain and one quoted name
+		} else if !full {
 			vals = stVals[:5] // quick: the values that continue after a parenthesised group with one plain and one quoted name only
 		}
 		for _, v := range vals {
@@ -99,7 +101,7 @@ func stModSpellings(full bool) []stEdit {
 	for ni, n := range stNames {
 		for _, o := range ops {
 			for vi, v := range stVals {
-				if !full && (vi >= 5 && ni != 0 && ni != 5 || ni >= 8 && vi >= 1) {
+				if !full && (vi >= 5 && ni != 0 && ni != 5 || vi >= 7 || ni >= 8 && vi >= 1) {
 					continue
 				}
 				txt := v.text
